@@ -512,7 +512,7 @@ def part_from_matchfile(
         # measure, add a rest (dummy)
         # if starting beat is above zero, add padding
         rest = score.Rest()
-        part.add(rest, start=0, end=t * divs)
+        part.add(rest, start=0, end=int(round(t * divs)))
         onset_in_divs += t * divs
         offset = 0
         t = t - t % beats_map(min_time)
